@@ -12,6 +12,7 @@ from tools.props import panel_common as pc
 from tools.translate import gen_field, pyx
 
 TRUSTED = pc.TRUSTED_T + [
+    'tools/cyexec.py (Cython-subset source executor, validated by its --selftest and by bit-identical agreement with the binaries on the unchanged tree): the source reading of the hand-written .pyx/.pxi files',
     'hand model lean/CompmechVerif/Model/Chunking.lean of the pad/reshape/prange/ravel/trim logic of fuvw/fstrain '
     '(tied by the driver correspondence for core counts 1..16)',
     'OpenMP scheduling / data races cannot be exhibited by the model: identical outputs across core counts are required '
